@@ -1657,6 +1657,13 @@ class RawAlgorithmsMixIn:
         if out is None:
             raise NotImplementedError('should implement that')
 
+        xbar_data = out
+        if not numpy.may_share_memory(xbar_data, ybar_data):
+            # numpy.reshape had to copy (x is not contiguous, e.g. a
+            # transposed matrix), so ybar is not a view of xbar and its
+            # content has to be handed on explicitly
+            xbar_data += numpy.reshape(ybar_data, xbar_data.shape)
+
         return numpy.reshape(out, x_data.shape)
 
     @classmethod
